@@ -2,7 +2,6 @@
 //! predicted probabilities (clamped sigmoid of x·w) recomputed from first principles, f32.
 use super::*;
 use linfa::dataset::Pr;
-use ndarray::s;
 use linfa_ftrl::Ftrl;
 use rand_xoshiro::rand_core::SeedableRng;
 use rand_xoshiro::Xoshiro256Plus;
@@ -86,6 +85,23 @@ fn ftrl_checks(ctx: &mut Ctx, class: &str, step: usize, m: &Ftrl<f64>, hp: &[f64
     // the weights themselves: closed form of the proximal step
     let ww: Vec<f64> = z.iter().zip(&n).map(|(z, n)| ftrl_w(*z, *n, hp)).collect();
     ctx.require(near_v(&w, &ww, 1e-12), "weights_closed_form", class, || format!("step {}: get_weights {:?}, closed form {:?}", step, w, ww));
+    // independent of the closed form (Lean: `ftrl_weight_is_proximal_minimiser`): the weight minimises the documented
+    // per-coordinate objective z·w + l1·|w| + ½·d·w², d = (√n + β)/α + l2 > 0 — no nearby or distant w does better
+    let d = |n: f64| (hp[1] + n.sqrt()) / hp[0] + hp[3];
+    let obj = |z: f64, n: f64, w: f64| z * w + hp[2] * w.abs() + 0.5 * d(n) * w * w;
+    for j in 0..z.len() {
+        if !(d(n[j]) > 0.0 && d(n[j]).is_finite() && w[j].is_finite() && z[j].is_finite()) {
+            continue;
+        }
+        let at = obj(z[j], n[j], w[j]);
+        for h in [1e-3, 0.1, 1.0] {
+            for sgn in [-1.0, 1.0] {
+                let v = w[j] + sgn * h * (1.0 + w[j].abs());
+                let there = obj(z[j], n[j], v);
+                ctx.require(at <= there + 1e-9 * (1.0 + there.abs()), "weights_minimise_objective", class, || format!("step {}: coordinate {}: objective {} at the weight {} but {} at {}", step, j, at, w[j], there, v));
+            }
+        }
+    }
 }
 fn show_ftrl(m: &Ftrl<f64>) -> String {
     format!("z={}/n={}/w={}", list(m.z().iter(), |x| tf(*x)), list(m.n().iter(), |x| tf(*x)), list(m.get_weights().iter(), |x| tf(*x)))
@@ -145,33 +161,61 @@ fn op_ftrl_pred(em: &mut Em, hp: [f64; 4], z: &[f64], n: &[f64], xs: &Rows) {
     });
 }
 
-fn op_ftrl_fit(em: &mut Em, hp: [f64; 4], seed: u64, p: usize, batches: &[(Rows, Vec<bool>)]) {
+/// checked parameters (their type is not exported by linfa-ftrl, hence a macro)
+macro_rules! mk_params {
+    ($hp:expr, $seed:expr) => {
+        Ftrl::<f64>::params_with_rng(Xoshiro256Plus::seed_from_u64($seed)).alpha($hp[0]).beta($hp[1]).l1_ratio($hp[2]).l2_ratio($hp[3]).check().expect("valid FTRL parameters")
+    };
+}
+
+/// A history of `fit_with` calls.  `hps[i]` are the hyper-parameters of the PARAMETERS used for call i; an `Ftrl`
+/// value stores its own copy (made by `Ftrl::new` at the first call) and the code that exists uses the
+/// model's copy throughout — that is what the model side (`ftrlFitHistoryM`) does.  The oracle demands the
+/// documented recurrence with ONE consistent set of hyper-parameters per update (the model's, or — a choice
+/// the statement also permits — those of the call's parameters): a mixed update fails.
+fn op_ftrl_fit(em: &mut Em, hps: &[[f64; 4]], seed: u64, p: usize, batches: &[(Rows, Vec<bool>)], layout: usize) {
     // z0 is drawn by the real code from the seeded generator; it is part of the request line
-    let params = Ftrl::<f64>::params_with_rng(Xoshiro256Plus::seed_from_u64(seed)).alpha(hp[0]).beta(hp[1]).l1_ratio(hp[2]).l2_ratio(hp[3]).check().expect("valid FTRL parameters");
-    let z0 = Ftrl::new(params.clone(), p).z().to_vec();
+    let params: Vec<_> = hps.iter().map(|hp| mk_params!(hp, seed)).collect();
+    let z0 = Ftrl::new(params[0].clone(), p).z().to_vec();
     let op = format!(
-        "ftrl_fit hp={} z0={} x={} y={}",
-        list(hp.iter(), |x| hex64(*x)),
+        "ftrl_fit hps={} z0={} x={} y={}",
+        list2(hps.iter().map(|h| h.iter()), |x| hex64(*x)),
         list(z0.iter(), |x| hex64(*x)),
         list3(batches.iter().map(|(r, _)| r.iter().map(|x| x.iter())), |x| hex64(*x)),
         list2(batches.iter().map(|(_, l)| l.iter()), |x| (*x as u8).to_string())
     );
+    let differing = hps.iter().any(|h| h != &hps[0]);
+    let class = if differing { "ftrl_fit:params_differ_from_model" } else { "ftrl_fit" };
     case_t(em, op, "ftrl_fit", |ctx| {
-        ctx.require(z0.iter().all(|v| (0.0..1.0).contains(v)), "function_of_history", "ftrl_fit", || format!("initial z {:?} is not drawn from [0, 1)", z0));
+        ctx.require(z0.iter().all(|v| (0.0..1.0).contains(v)), "function_of_history", class, || format!("initial z {:?} is not drawn from [0, 1)", z0));
         let mut model: Option<Ftrl<f64>> = None;
         let mut parts = vec![];
         let (mut z, mut n) = (z0.clone(), vec![0.0; p]);
+        let hp = hps[0];
         for (i, (xs, ys)) in batches.iter().enumerate() {
             let ds = mk_bool_ds(xs, ys, p);
-            let prev = model.clone().unwrap_or_else(|| Ftrl::new(params.clone(), p));
-            ctx.require(prev.z().to_vec() == z && prev.n().to_vec() == n, "function_of_history", "ftrl_fit", || format!("step {}: state before the update differs from the state after the previous one", i));
+            let prev = model.clone().unwrap_or_else(|| Ftrl::new(params[0].clone(), p));
+            ctx.require(prev.z().to_vec() == z && prev.n().to_vec() == n, "function_of_history", class, || format!("step {}: state before the update differs from the state after the previous one", i));
             // the probabilities the update uses are the public prediction of the previous model; they are first
             // judged against the first-principles sigmoid of the previous state, then fed to the recurrence
             let probs: Vec<f32> = prev.predict(&arr2(xs, p)).iter().map(|pr| **pr).collect();
-            ftrl_prob_check(ctx, "ftrl_fit", i, &z, &n, &hp, xs, &probs, 1.2e-16);
-            let m = params.fit_with(model.take(), &ds).expect("fit_with");
+            ftrl_prob_check(ctx, class, i, &z, &n, &hp, xs, &probs, 1.2e-16);
+            let m = params[i].fit_with(model.take(), &ds).expect("fit_with");
             tag("ok:ftrl_fit:batch_fitted");
-            ftrl_checks(ctx, "ftrl_fit", i, &m, &hp, &z, &n, &probs, xs, ys);
+            let mut own = Ctx { fails: vec![], trivial: false };
+            ftrl_checks(&mut own, class, i, &m, &hp, &z, &n, &probs, xs, ys);
+            if !own.fails.is_empty() && hps[i] != hp {
+                let mut other = Ctx { fails: vec![], trivial: false };
+                ftrl_checks(&mut other, class, i, &m, &hps[i], &z, &n, &probs, xs, ys);
+                if other.fails.is_empty() {
+                    own.fails.clear();
+                    tag("ok:ftrl_fit:update_with_the_calls_hyperparameters");
+                }
+            }
+            if hps[i] != hp {
+                tag("ok:ftrl_fit:batch_fitted:params_differ_from_model");
+            }
+            ctx.fails.extend(own.fails);
             z = m.z().to_vec();
             n = m.n().to_vec();
             parts.push(show_ftrl(&m));
@@ -179,24 +223,114 @@ fn op_ftrl_fit(em: &mut Em, hp: [f64; 4], seed: u64, p: usize, batches: &[(Rows,
         }
         // the model is a function of the history (and the seed) alone: a second replay ends in the same state
         let mut again: Option<Ftrl<f64>> = None;
-        for (xs, ys) in batches {
-            again = Some(params.fit_with(again.take(), &mk_bool_ds(xs, ys, p)).expect("fit_with"));
+        for (i, (xs, ys)) in batches.iter().enumerate() {
+            again = Some(params[i].fit_with(again.take(), &mk_bool_ds(xs, ys, p)).expect("fit_with"));
         }
         let (a, b) = (again.unwrap(), model.unwrap());
-        ctx.require(a.z() == b.z() && a.n() == b.n(), "function_of_history", "ftrl_fit", || format!("replaying the same history from the same parameters ends in z {:?} n {:?} instead of z {:?} n {:?}", a.z(), a.n(), b.z(), b.n()));
-        // the same history through strided `DatasetView`s (every second row / all but the last column of a larger
-        // matrix, every second target): another entry point, same model up to the order of a <= 5-term sum
+        ctx.require(a.z() == b.z() && a.n() == b.n(), "function_of_history", class, || format!("replaying the same history from the same parameters ends in z {:?} n {:?} instead of z {:?} n {:?}", a.z(), a.n(), b.z(), b.n()));
+        // the same history through `DatasetView`s of another memory layout (Fortran order, strided, reversed rows
+        // / columns, both axes inverted; targets through a reversed view where the rows are): another entry
+        // point, same model up to the order of a <= 5-term sum
         let mut viewed: Option<Ftrl<f64>> = None;
-        for (xs, ys) in batches {
-            let store = mk_store::<f64>(xs, p, 2);
-            let ystore: Array1<bool> = (0..2 * ys.len()).map(|i| if i % 2 == 0 { ys[i / 2] } else { !ys[i / 2] }).collect();
-            let ds = DatasetView::new(mk_view(&store, p, 2), ystore.slice(s![..;2]));
-            viewed = Some(params.fit_with(viewed.take(), &ds).expect("fit_with on a view"));
+        for (i, (xs, ys)) in batches.iter().enumerate() {
+            let store = mk_store::<f64>(xs, p, layout);
+            let ystore = mk_tstore(ys, layout);
+            if let Some(vm) = &viewed {
+                // `predict` through the view against `predict` on an owned C-order copy of the same rows
+                let pv: Vec<f64> = vm.predict(&mk_view(&store, p, layout)).iter().map(|pr| **pr as f64).collect();
+                let po: Vec<f64> = vm.predict(&arr2(xs, p)).iter().map(|pr| **pr as f64).collect();
+                ctx.require(pv.len() == po.len() && pv.iter().zip(&po).all(|(a, b)| (a - b).abs() <= 1e-6 * a.abs().max(b.abs())), "probabilities", &format!("ftrl_fit:layout={}", LAYOUTS[layout]), || format!("predict through a {} view {:?}, on the owned copy {:?}", LAYOUTS[layout], pv, po));
+            }
+            let ds = DatasetView::new(mk_view(&store, p, layout), mk_tview(&ystore, layout));
+            viewed = Some(params[i].fit_with(viewed.take(), &ds).expect("fit_with on a view"));
         }
-        tag("ok:ftrl_fit:strided_view_fitted");
+        tag(&format!("ok:ftrl_fit:view_fitted:{}", LAYOUTS[layout]));
         let v = viewed.unwrap();
-        ctx.require(near_v(&v.z().to_vec(), &b.z().to_vec(), 1e-12) && near_v(&v.n().to_vec(), &b.n().to_vec(), 1e-12), "function_of_history", "ftrl_fit:strided_view", || format!("the history fed through strided views ends in z {:?} n {:?} instead of z {:?} n {:?}", v.z(), v.n(), b.z(), b.n()));
+        ctx.require(near_v(&v.z().to_vec(), &b.z().to_vec(), 1e-12) && near_v(&v.n().to_vec(), &b.n().to_vec(), 1e-12), "function_of_history", &format!("ftrl_fit:layout={}", LAYOUTS[layout]), || format!("the history fed through {} views ends in z {:?} n {:?} instead of z {:?} n {:?}", LAYOUTS[layout], v.z(), v.n(), b.z(), b.n()));
         format!("ok {}", parts.join(" "))
+    });
+}
+
+/// `Ftrl<f32>`: a seeded `fit_with` history (every memory layout).  Oracle in f64, step by step from the model's
+/// own previous state, so the f32 error does not accumulate: one update is the gradient (<= 5 products, <= 6
+/// roundings), sigma and the weight (<= 6 more) on quantities of magnitude <= ~50: judged at 2e-5 (1 + |x|);
+/// probabilities with the f32 bound of `ftrl_prob_check`
+fn op_ftrl_f32_fit(em: &mut Em, hp: [f64; 4], seed: u64, p: usize, batches: &[(Rows, Vec<bool>)], layout: usize) {
+    let op = format!(
+        "#ftrl_f32_fit hp={} seed={} layout={} x={} y={}",
+        list(hp.iter(), |x| hex64(*x)),
+        seed,
+        LAYOUTS[layout],
+        list3(batches.iter().map(|(r, _)| r.iter().map(|x| x.iter())), |x| hex64(*x)),
+        list2(batches.iter().map(|(_, l)| l.iter()), |x| (*x as u8).to_string())
+    );
+    case_t(em, op, "ftrl_f32_fit", |ctx| {
+        let hp32: [f64; 4] = [hp[0] as f32 as f64, hp[1] as f32 as f64, hp[2] as f32 as f64, hp[3] as f32 as f64];
+        let params = Ftrl::<f32>::params_with_rng(Xoshiro256Plus::seed_from_u64(seed)).alpha(hp[0] as f32).beta(hp[1] as f32).l1_ratio(hp[2] as f32).l2_ratio(hp[3] as f32).check().expect("valid FTRL parameters");
+        let w = |v: &Array1<f32>| -> Vec<f64> { v.iter().map(|x| *x as f64).collect() };
+        let mut model: Option<Ftrl<f32>> = None;
+        for (i, (xs, ys)) in batches.iter().enumerate() {
+            let prev = model.clone().unwrap_or_else(|| Ftrl::new(params.clone(), p));
+            let (z, n) = (w(prev.z()), w(prev.n()));
+            if i == 0 {
+                ctx.require(z.iter().all(|v| (0.0..1.0).contains(v)) && n.iter().all(|v| *v == 0.0), "function_of_history", "ftrl_f32_fit", || format!("fresh model z {:?} n {:?}", z, n));
+            }
+            let store = mk_store::<f32>(xs, p, layout);
+            let ystore = mk_tstore(ys, layout);
+            let probs: Vec<f32> = prev.predict(&mk_view(&store, p, layout)).iter().map(|pr| **pr).collect();
+            ftrl_prob_check(ctx, "ftrl_f32_fit", i, &z, &n, &hp32, xs, &probs, 6e-8);
+            let ds = DatasetView::new(mk_view(&store, p, layout), mk_tview(&ystore, layout));
+            let m = params.fit_with(model.take(), &ds).expect("fit_with");
+            tag(&format!("ok:ftrl_f32_fit:batch_fitted:{}", LAYOUTS[layout]));
+            let (wz, wn) = ftrl_expect(&z, &n, &hp32, &probs, xs, ys);
+            let (gz, gn) = (w(m.z()), w(m.n()));
+            ctx.require(near_v(&gz, &wz, 2e-5) && near_v(&gn, &wn, 2e-5), "recurrence", "ftrl_f32_fit", || format!("step {}: z {:?} n {:?}, recurrence from the previous state gives z {:?} n {:?}", i, gz, gn, wz, wn));
+            ctx.require(gn.iter().zip(&n).all(|(a, b)| a >= b), "n_monotone", "ftrl_f32_fit", || format!("step {}: n decreased: {:?} -> {:?}", i, n, gn));
+            zero_check(ctx, "ftrl_f32_fit", "after the update", i, &gz, &w(&m.get_weights()), &hp32);
+            model = Some(m);
+        }
+        "-".to_string()
+    });
+}
+
+/// Hyper-parameters that `FtrlParams::check` accepts although the documented closed form divides by zero:
+/// `beta = l2 = 0` on a fresh model (`n = 0`: weight = (±l1 − z)/0 = ∓inf wherever |z| > l1) and `alpha = 0`
+/// (sigma = x/0).  The statement's clauses are judged in IEEE arithmetic: the update is still the documented
+/// recurrence evaluated on the previous state (inf / NaN compare equal to inf / NaN), a weight is 0 exactly
+/// where |z| <= l1.  Probabilities of non-finite logits are not judged (the documented sigmoid has no value).
+fn op_ftrl_degenerate(em: &mut Em, hp: [f64; 4], seed: u64, p: usize, batches: &[(Rows, Vec<bool>)]) {
+    let op = format!(
+        "#ftrl_degenerate hp={} seed={} x={} y={}",
+        list(hp.iter(), |x| hex64(*x)),
+        seed,
+        list3(batches.iter().map(|(r, _)| r.iter().map(|x| x.iter())), |x| hex64(*x)),
+        list2(batches.iter().map(|(_, l)| l.iter()), |x| (*x as u8).to_string())
+    );
+    case_t(em, op, "ftrl_degenerate", |ctx| {
+        let params = mk_params!(hp, seed);
+        let mut model: Option<Ftrl<f64>> = None;
+        for (i, (xs, ys)) in batches.iter().enumerate() {
+            let prev = model.clone().unwrap_or_else(|| Ftrl::new(params.clone(), p));
+            let (z, n) = (prev.z().to_vec(), prev.n().to_vec());
+            let w0 = prev.get_weights().to_vec();
+            // only the statement's direction: zero WHEREVER |z| <= l1.  The converse is not promised and is false
+            // here: with alpha = 0 the denominator is infinite and every weight is (−)0, also where |z| > l1
+            let zero_where_le = |ctx: &mut Ctx, what: &str, z: &[f64], w: &[f64]| {
+                for j in 0..z.len() {
+                    ctx.require(!(z[j].abs() <= hp[2]) || w[j] == 0.0, "zero_iff_within_l1", "ftrl_degenerate", || format!("step {} ({}): coordinate {}: z {} l1 {} weight {}", i, what, j, z[j], hp[2], w[j]));
+                }
+            };
+            zero_where_le(ctx, "before the update", &z, &w0);
+            let probs: Vec<f32> = prev.predict(&arr2(xs, p)).iter().map(|pr| **pr).collect();
+            let m = params.fit_with(model.take(), &mk_bool_ds(xs, ys, p)).expect("fit_with");
+            let (wz, wn) = ftrl_expect(&z, &n, &hp, &probs, xs, ys);
+            let (gz, gn) = (m.z().to_vec(), m.n().to_vec());
+            ctx.require(near_v(&gz, &wz, 1e-9) && near_v(&gn, &wn, 1e-9), "recurrence", "ftrl_degenerate", || format!("step {}: z {:?} n {:?}, the recurrence in IEEE arithmetic gives z {:?} n {:?}", i, gz, gn, wz, wn));
+            zero_where_le(ctx, "after the update", &gz, &m.get_weights().to_vec());
+            tag(if gz.iter().all(|v| v.is_finite()) { "ok:ftrl_degenerate:state_finite" } else { "ok:ftrl_degenerate:state_not_finite" });
+            model = Some(m);
+        }
+        "-".to_string()
     });
 }
 
@@ -256,7 +390,11 @@ pub(super) fn run(em: &mut Em, rng: &mut Rng) {
                 _ => rng.range(-16, 16) as f64 / 8.0,
             })
             .collect();
-        let n: Vec<f64> = (0..p).map(|_| (rng.range(if degenerate { 1 } else { 0 }, 6) * rng.range(if degenerate { 1 } else { 0 }, 6)) as f64 / 4.0).collect();
+        // beta = l2 = 0: half of the start states keep n >= 1/4, the other half may have n = 0 (the weight is then
+        // (±l1 − z)/0 = ∓inf where |z| > l1; both sides evaluate it in IEEE arithmetic) — those go to `ftrl_update` only
+        let lo = if degenerate && i % 2 == 0 { 1 } else { 0 };
+        let n: Vec<f64> = (0..p).map(|_| (rng.range(lo, 6) * rng.range(lo, 6)) as f64 / 4.0).collect();
+        let infinite_weight = degenerate && z.iter().zip(&n).any(|(z, n)| *n == 0.0 && z.abs() > hp[2]);
         let rows = 1 + rng.below(6);
         // scale 1: logits of a few units; 16 / 64: far beyond the +-35 clamp of the sigmoid on both sides
         let scale = *rng.pick(&[1.0, 1.0, 16.0, 64.0]);
@@ -268,9 +406,13 @@ pub(super) fn run(em: &mut Em, rng: &mut Rng) {
             em.count("ftrl:beta=0,l2=0");
         }
         op_ftrl_update(em, hp, &z, &n, &probs, &xs, &ys);
-        op_ftrl_pred(em, hp, &z, &n, &wide);
-        if i % 3 == 0 {
-            op_ftrl_f32(em, hp, &z, &n, &probs, &xs, &ys, &wide);
+        if infinite_weight {
+            em.count("ftrl:beta=0,l2=0,n=0:infinite_weight");
+        } else {
+            op_ftrl_pred(em, hp, &z, &n, &wide);
+            if i % 3 == 0 {
+                op_ftrl_f32(em, hp, &z, &n, &probs, &xs, &ys, &wide);
+            }
         }
         if degenerate {
             hp[3] = 0.5;
@@ -284,6 +426,22 @@ pub(super) fn run(em: &mut Em, rng: &mut Rng) {
                 ((0..r).map(|_| (0..p).map(|_| rng.range(-3, 3) as f64 * fscale).collect()).collect(), (0..r).map(|_| rng.coin()).collect())
             })
             .collect();
-        op_ftrl_fit(em, hp, rng.next() % 1000, p, &batches);
+        // every third history: the parameters of the later calls carry other hyper-parameters than the model
+        let mut hps = vec![hp; nb];
+        if i % 3 == 1 {
+            for h in hps.iter_mut().skip(1) {
+                *h = [*rng.pick(&[0.005, 0.5, 1.0, 2.0]), *rng.pick(&[0.5, 1.0]), *rng.pick(&[0.0, 0.25, 0.5, 1.0]), *rng.pick(&[0.0, 0.5, 1.0])];
+            }
+        }
+        let seed = rng.next() % 1000;
+        op_ftrl_fit(em, &hps, seed, p, &batches, 1 + i % (LAYOUTS.len() - 1));
+        if i % 4 == 2 && fscale == 1.0 {
+            op_ftrl_f32_fit(em, hp, seed, p, &batches, (i / 4) % LAYOUTS.len());
+        }
+        if i % 16 == 7 {
+            // accepted by `check`, yet the closed form divides by zero: beta = l2 = 0 from a fresh model, alpha = 0
+            let dhp = if i % 32 == 7 { [hp[0], 0.0, *rng.pick(&[0.0, 0.25]), 0.0] } else { [0.0, hp[1], hp[2], hp[3]] };
+            op_ftrl_degenerate(em, dhp, seed, p, &batches);
+        }
     }
 }
